@@ -83,7 +83,7 @@ def run_case(desc):
     usable = quiesce.available()
     W = Watch(desc)
     with W:
-        R = plainrun.execute(desc, record_args=False)
+        R = plainrun.execute(desc, record_args=False, hang_watch=False)
     H, ir = R.H, R.ir
     bad = None
     if R.in_flight_at_return:
